@@ -229,7 +229,7 @@ def dist(ctx):
     c = P("counts")
     arr = atom(("call", "numpy.array", (c,), ()))
     hist = arr + const(0.5)
-    want = hist / (atom(("call", "numpy.sum", (c,), ())) + atom(("call", "len", (hist,), ())) / const(2))
+    want = hist / (atom(("call", "numpy.sum", (c,), ())) + atom(("call", "len", (c,), ())) / const(2))  # len(np.array(c) + 0.5) is len(c) in the engine's normal form
     ctx.ob("FRM", site, "(c + 1/2) / (sum c + k/2)", tr.retval is not None and T.same(tr.retval, want), q.short(tr.retval, 160))
     tk = ctx.trace(PART, "kl_distance")
     en = [e for e in tk.calls() if e.callee == ("lib", "scipy.stats.entropy")]
@@ -251,7 +251,8 @@ def dist(ctx):
     ctx.ob("FRM", PART + ".leaf_counts", "counts of every leaf, in leaf order, for the given id", ok, "")
     # Kulldorff statistic
     ts = static_trace(ctx, PART, "_calculate_kss")
-    df = P("df")
+    fi_k = ctx.prog.method(PART, "_calculate_kss")
+    df = P(fi_k.params()[0])   # the row the statistic is computed for, whatever the parameter is called
     cr, ct = q.sub(df, const("node_count_ref")), q.sub(df, const("node_count_test"))
     en = [e for e in ts.calls() if e.callee == ("lib", "scipy.stats.entropy")]
     dc = [e for e in ts.calls() if e.d.get("fi") is not None and e.fi.qualname == site]
@@ -318,6 +319,8 @@ def flatten(ctx):
     ctx.ob("MC", site, "exactly one row per visited node", len(ap) == 1, "found %d appends" % len(ap))
     node = P("node")
     cnt = atom(("getattr", node, "num_samples_in_compared_subtrees"))
+    if not ctx.anchor(site, "the tree is flattened by recursion into both children", len(rec_calls(tr, site)) == 2, ""):
+        return
     if ap:
         row = ap[0].value.single_atom()[1][0]
         ok = (q.sub(row, const("cell_count")) == q.sub(cnt, P("tree_id1")) and q.sub(row, const("depth")) == P("depth")
@@ -447,7 +450,11 @@ def wrappers(ctx):
     ctx.ob("GRD", PART + ".leaf_counts", "counts are listed exactly when the tree has leaves", ok, q.short(tl.retval, 120) if tl.retval is not None else "")
     tk = ctx.trace(PART, "kl_distance")
     nr = [e for e in tk.returns() if len(e.stack) == 1 and e.value == T.NONE]
-    ok = len(nr) == 1 and q.guards_in(nr[0], PART + ".kl_distance") == [T.mk_cmp("==", A("leaves"), atom(("list", ())))]
+    gk = q.guards_in(nr[0], PART + ".kl_distance") if len(nr) == 1 else []
+    # `leaves == []`, `not leaves`, `len(leaves) == 0`: the list is empty
+    lv = A("leaves")
+    empties = [T.mk_cmp("==", lv, atom(("list", ()))), T.mk_not(lv), T.mk_cmp("==", atom(("call", "len", (lv,), ())), const(0))]
+    ok = len(nr) == 1 and len(gk) == 1 and (gk[0] in empties or _is_truth_of(T.mk_not(gk[0]), lv))
     ctx.ob("GRD", PART + ".kl_distance", "no divergence only for a tree without leaves", ok, "guards: %s" % "; ".join(q.short(g, 80) for e in nr for g in q.guards_in(e, PART + ".kl_distance")))
 
 
@@ -485,8 +492,8 @@ def plotly(ctx):
     ctx.ob("FRM", site, "max_depth keeps the rows of depth <= max_depth", ok, q.short(flt[0].value, 120) if flt else "no filter", flt[0] if flt else None)
     fa = [e for e in tp.calls() if e.d.get("fi") is not None and e.fi.qualname == NODE + ".as_flattened_array" and len(e.stack) == 1]
     if fa:
-        kw = dict(fa[0].kwargs)
-        ok = (fa[0].args[:1] == (A("node"),) or kw.get("node") == A("node")) and kw.get("tree_id1") == P("tree_id1") and kw.get("tree_id2") == P("tree_id2") and kw.get("input_cols") == P("input_cols")
+        kw = q.bind(fa[0])   # by parameter name, positional or keyword
+        ok = kw.get("node") == A("node") and kw.get("tree_id1") == P("tree_id1") and kw.get("tree_id2") == P("tree_id2") and kw.get("input_cols") == P("input_cols")
         ctx.ob("FWD", site, "the whole tree is flattened for the two given ids", ok, "", fa[0])
     # flattening guards
     site2 = NODE + ".as_flattened_array"
@@ -494,6 +501,8 @@ def plotly(ctx):
     node = P("node")
     keys = atom(("getattr", node, "num_samples_in_compared_subtrees"))  # `k in d.keys()` is normalised to `k in d`
     ap2 = [e for e in tr.of("localmut") if e.name == "output" and e.how == "method:append" and len(e.stack) == 1]
+    if not ctx.anchor(site2, "the tree is flattened by recursion into both children (guards)", len(rec_calls(tr, site2)) == 2, ""):
+        return
     for e in ap2:
         g = q.guards_in(e, site2)
         has_in = any(x == atom(("in", P("tree_id1"), keys)) for x in g)
